@@ -406,7 +406,9 @@ func WriteFile(name string, data []byte, perm fs.FileMode) error {
 
 type notExist struct{ name string }
 
-func (e *notExist) Error() string { return "open " + e.name + ": no such file or directory (simulated disk)" }
+func (e *notExist) Error() string {
+	return "open " + e.name + ": no such file or directory (simulated disk)"
+}
 
 // ReadFile replaces os.ReadFile in instrumented code.
 func ReadFile(name string) ([]byte, error) {
